@@ -1,14 +1,21 @@
 NOT_APPLICABLE = {}
 
 claim("C06",
-  text="Lean theorems about the TickMath model whose multiplier table is regenerated from the source on every run: protocol boundary values, "
-       "strict monotonicity for all 1 774 545 ticks (exhaustive kernel sweep, decide +kernel on a binary-splitting checker, no native_decide), "
-       "floor semantics of sqrt->tick for every float estimate, nearest-usable-tick laws; tied to the code by differential execution of the real "
-       "functions against the compiled model (quick: stride sample, thorough: every tick) plus the property oracle on the implementation's outputs.",
-  note="Trusted: Lean kernel, tools/gen_consts.py, harness generators. math.log is an oracle (theorem holds for any estimate). "
-       "Partial: closeness to sqrt(1.0001^t)*2^96 within the stated bound and the price<->tick inverse-within-one-tick are measured "
-       "(70/90-digit arithmetic; thorough = all ticks), not proved.",
-  technique="Lean 4 proof (kernel sweep + induction) over a model regenerated from source constants; differential correspondence with the Python code",
+  text="Lean theorems about the TickMath model whose multiplier table is regenerated from the source: protocol boundary values; strict monotonicity "
+       "for all 1,774,545 ticks; CLOSENESS to sqrt(1.0001^t)*2^96 within the property's bound for every tick (integer form and Real.sqrt form), by a "
+       "certified enclosure sweep - kernel-checked certificates for twenty 192-bit constants, a multiplicativity lemma for outward-rounded brackets, and an "
+       "exhaustive `decide +kernel` sweep of a per-tick Boolean check, no native_decide; relative tick gap >= 1.00004 on the whole range; floor semantics of "
+       "sqrt->tick for every float estimate; nearest-usable-tick laws; and the price<->tick helpers (faithful Decimal model: /, *, **2, Decimal(10**e), 1/x, "
+       "Decimal.sqrt, int()), both orientations and all decimals: exact round trip returns the tick, and under any arithmetic with relative error <= eps <= 1e-9 "
+       "per operation the round trip lands in {t-1, t}, both through the integer-corrected conversion (oracle-free) and through base_unit_price_to_tick's float "
+       "logarithm. Tied to the code by bit-exact differential execution of the real functions against the compiled models (driver, driver_tick) plus the "
+       "property oracle on the implementation's outputs (quick: stride sample, thorough: every tick).",
+  note="Trusted: Lean kernel, tools/gen_consts.py, harness generators. The enclosure constants and tools/gen_c06_close.py are not trusted (re-certified in the "
+       "kernel). base_unit_price_to_tick ends in math.floor(math.log(...)) (libm): its theorem assumes the result is the floor logarithm up to a relative "
+       "perturbation 1e-9 of the argument; that hypothesis is evaluated on every observed call with a 60-digit reference. The eps-robust theorems assume relative "
+       "error <= eps for Decimal /, *, **2, sqrt; CPython's 5e-35 is not proved for the model's round35 (its digit-count estimate is only valid below ~2^150000), "
+       "it is covered by the bit-exact correspondence. Decimal(10**negative) uses libm pow, compared bit-exactly.",
+  technique="Lean 4 proof (certified interval enclosure + exhaustive kernel sweep + error-propagation calculus over Q) over models regenerated from source constants; differential correspondence with the Python code",
   ref="DESIGN.md §2 C06")
 
 claim("C07",
